@@ -2,6 +2,7 @@
 import MW.Model.Ledger
 import MW.Spec.Chain
 import MW.Spec.Pending
+import MW.Model.WithdrawSeq
 namespace MW.Drv.Led
 open MW MW.Model.Ledger
 
@@ -299,8 +300,21 @@ def step (st : St) (args : List String) : St × String :=
       | none => (st, "bad-op")
       | some idx =>
         let dflt := if lock ≠ 0 then 2^64 - 2 else 2^64 - 1
+        -- model: existsMsgTx (unspent index → credit key → tx record → FetchTxByLoc), ParsePkScript of the
+        -- previous output, then the switch `MW.Model.WithdrawSeq.seqChoice` — the function
+        -- `MW.Props.C10.withdraw_sequence` is about — with prevHeight = the height of the credit's block
         let m := match (coinsOf st.store w).find? (fun c => c.tx = t && c.idx = idx) with
-          | some c => if c.cred.cls = .staking then s!"seq {c.cred.maturity}" else s!"seq {dflt}"
+          | some c =>
+            (match AMap.get st.store.txrecs (c.tx, c.blk) with
+            | none => "err"
+            | some loc =>
+              match st.node.txByLoc c.blk.height loc with
+              | some tx =>
+                if tx.id ≠ c.tx then "err" else
+                (match tx.outs[idx]? with
+                | some o => s!"seq {Model.WithdrawSeq.seqChoice lock o.cls c.blk.height}"
+                | none => "err")
+              | none => "err")
           | none => "err"
         -- spec: a staking deposit must be spent with sequence frozen+1 (consensus sequence lock)
         let sp := match (Spec.Chain.coinsOfWallet (Spec.Chain.ledgerOf st.own st.specChain) w).find? (fun c => c.tx = t && c.idx = idx) with
